@@ -1780,8 +1780,25 @@ class FortranFileReader(FortranReaderBase):
         if source_only is not None:
             self.source_only = source_only[:]
 
+    def __getstate__(self):
+        """
+        The open file can neither be copied nor pickled. A copy of the
+        reader (made by copy.deepcopy or pickle, e.g. as part of a parse
+        tree, whose nodes refer to their reader) keeps everything that has
+        been read so far but not the file: the copy is closed.
+
+        :returns: the state of this object without the file.
+        :rtype: dict
+        """
+        state = self.__dict__.copy()
+        state["file"] = None
+        state["source"] = None
+        state["isclosed"] = True
+        state["_close_on_destruction"] = False
+        return state
+
     def __del__(self):
-        if self._close_on_destruction:
+        if getattr(self, "_close_on_destruction", False):
             self.file.close()
 
     def close_source(self):
